@@ -377,8 +377,9 @@ Definition drop_nl (t : list seg) : list seg :=
   end.
 
 Definition U_sub0 := write_subword_fn_0 ++ seg_nl.
-Definition U_sub6 := write_subword_fn_6 ++ seg_nl.
-Definition U_sub78 := write_subword_fn_7 ++ write_subword_fn_8 ++ seg_nl ++ seg_nl.
+Definition U_sub2 := write_subword_fn_2 ++ seg_nl.
+Definition U_sub8 := write_subword_fn_8 ++ seg_nl.
+Definition U_sub910 := write_subword_fn_9 ++ write_subword_fn_10 ++ seg_nl ++ seg_nl.
 
 Lemma U_sub0_scans :
   unit_scans command U_sub0
@@ -389,17 +390,21 @@ Qed.
 
 Lemma U_sub1_scans : unit_scans command write_subword_fn_1 [].
 Proof. unit_tac command Hc Hnl idtac. Qed.
-Lemma U_sub2_scans : unit_scans command write_subword_fn_2 [].
+Lemma U_sub2_scans : unit_scans command U_sub2 [].
 Proof. unit_tac command Hc Hnl idtac. Qed.
 Lemma U_sub3_scans : unit_scans command write_subword_fn_3 [].
 Proof. unit_tac command Hc Hnl idtac. Qed.
 Lemma U_sub4_scans : unit_scans command write_subword_fn_4 [].
 Proof. unit_tac command Hc Hnl idtac. Qed.
-Lemma U_sub5_scans : unit_scans command write_subword_fn_5 [SLits "subword_candidates" []; SLits "subword_matches" []].
+Lemma U_sub5_scans : unit_scans command write_subword_fn_5 [].
 Proof. unit_tac command Hc Hnl idtac. Qed.
-Lemma U_sub6_scans : unit_scans command U_sub6 [].
+Lemma U_sub6_scans : unit_scans command write_subword_fn_6 [].
 Proof. unit_tac command Hc Hnl idtac. Qed.
-Lemma U_sub78_scans : unit_scans command U_sub78 [SEnd].
+Lemma U_sub7_scans : unit_scans command write_subword_fn_7 [SLits "subword_candidates" []; SLits "subword_matches" []].
+Proof. unit_tac command Hc Hnl idtac. Qed.
+Lemma U_sub8_scans : unit_scans command U_sub8 [].
+Proof. unit_tac command Hc Hnl idtac. Qed.
+Lemma U_sub910_scans : unit_scans command U_sub910 [SEnd].
 Proof. unit_tac command Hc Hnl idtac. Qed.
 End Units.
 
@@ -1123,30 +1128,34 @@ Lemma sub_fn_scans command (Hc : name_ok command) nc ns :
 Proof.
   assert (T : write_subword_fn command nc ns
               = (render (env_cmd command) U_sub0
-                 ++ (if nc then render (env_cmd command) write_subword_fn_1 else EmptyString)
-                 ++ (if ns then render (env_cmd command) write_subword_fn_2 else EmptyString)
-                 ++ render (env_cmd command) write_subword_fn_3
-                 ++ render (env_cmd command) write_subword_fn_4
+                 ++ (if ns then render (env_cmd command) write_subword_fn_1 else EmptyString)
+                 ++ render (env_cmd command) U_sub2
+                 ++ (if nc then render (env_cmd command) write_subword_fn_3 else EmptyString)
+                 ++ (if ns then render (env_cmd command) write_subword_fn_4 else EmptyString)
                  ++ render (env_cmd command) write_subword_fn_5
-                 ++ (if nc then render (env_cmd command) U_sub6 else EmptyString)
-                 ++ render (env_cmd command) U_sub78)%string).
-  { unfold write_subword_fn, U_sub0, U_sub6, U_sub78, fmtln, fmt, seg_nl, env_cmd. cbn [sconcat].
+                 ++ render (env_cmd command) write_subword_fn_6
+                 ++ render (env_cmd command) write_subword_fn_7
+                 ++ (if nc then render (env_cmd command) U_sub8 else EmptyString)
+                 ++ render (env_cmd command) U_sub910)%string).
+  { unfold write_subword_fn, U_sub0, U_sub2, U_sub8, U_sub910, fmtln, fmt, seg_nl, env_cmd. cbn [sconcat].
     rewrite !render_app. cbn [render]. destruct nc, ns; rewrite ?QuoteRT.append_nil_r, ?append_assoc; reflexivity. }
   rewrite T. clear T.
   assert (S : sub_fn_stmts command
               = [SFunc (fn_name command "_subword"); SScalar "subword_state" 0; SScalar "char_index" 0; SScalar "matched" 0]
-                ++ (if nc then [] else []) ++ (if ns then [] else []) ++ [] ++ []
+                ++ (if ns then [] else []) ++ [] ++ (if nc then [] else []) ++ (if ns then [] else []) ++ [] ++ []
                 ++ [SLits "subword_candidates" []; SLits "subword_matches" []]
                 ++ (if nc then [] else []) ++ [SEnd]) by (destruct nc, ns; reflexivity).
   rewrite S. clear S.
   apply scans_ex_app; [unit_of U_sub0_scans command Hc|].
   apply scans_ex_app; [apply scans_if; unit_of U_sub1_scans command Hc|].
-  apply scans_ex_app; [apply scans_if; unit_of U_sub2_scans command Hc|].
-  apply scans_ex_app; [unit_of U_sub3_scans command Hc|].
-  apply scans_ex_app; [unit_of U_sub4_scans command Hc|].
+  apply scans_ex_app; [unit_of U_sub2_scans command Hc|].
+  apply scans_ex_app; [apply scans_if; unit_of U_sub3_scans command Hc|].
+  apply scans_ex_app; [apply scans_if; unit_of U_sub4_scans command Hc|].
   apply scans_ex_app; [unit_of U_sub5_scans command Hc|].
-  apply scans_ex_app; [apply scans_if; unit_of U_sub6_scans command Hc|].
-  unit_of U_sub78_scans command Hc.
+  apply scans_ex_app; [unit_of U_sub6_scans command Hc|].
+  apply scans_ex_app; [unit_of U_sub7_scans command Hc|].
+  apply scans_ex_app; [apply scans_if; unit_of U_sub8_scans command Hc|].
+  unit_of U_sub910_scans command Hc.
 Qed.
 
 (** the completion function as a chain of units and data sections *)
